@@ -135,6 +135,12 @@ LINTS = [
      "a method that returns a new object made from self returns self, or shares self's dictionaries with it"),
     ("shared-container", lints.shared_mutable_containers, {"C07"},
      "a class-level container or a mutable default argument is changed through instances"),
+    ("required-key-presence-only", lambda repo, modules: lints.required_key_presence_only(repo, ("ast", "typemap", "main")), {"C17"},
+     "a required key of the input file is tested for presence only: a blank entry (None) satisfies the requirement"),
+    ("break-on-element-flag", lints.break_on_element_flag, BEHAVIOURAL | {"C15"},
+     "a loop over declarations is left at the first element whose wrap flag is off"),
+    ("inherited-container-mutated", lints.inherited_container_mutated, BEHAVIOURAL | {"C07"},
+     "a list looked up through a Scope's parent is changed in place"),
     ("first-wins-memo", lints.first_wins_class_memo, {"C07"},
      "a class attribute is filled once per process and read by every later run"),
     ("scope-from-other-key", lints.scope_from_other_key, BEHAVIOURAL,
@@ -201,7 +207,7 @@ def run_general(repo, run, R, pid, modules=MODULES):
                 by_prefix = {"PY_": {"C03"}, "F_": {"C01", "C04"}, "C_": {"C02"}, "LUA_": {"C18"}, "CXX_": {"C02"}}
                 for pre, ps in by_prefix.items():
                     if opt.startswith(pre):
-                        props = ps | {"C14"}
+                        props = props | ps | {"C14"}
                         break
                 else:
                     props = props | {"C14"}
